@@ -4,7 +4,7 @@
    (Python's import-binding semantics: statements execute in order, the last binding of a name wins). *)
 From Coq Require Import List NArith Bool Permutation Sorted.
 From RopeVerif.Lib Require Import Text.
-From RopeVerif.C07 Require Import Imports Spec BasicsProofs SpecProofs SortProofs OrganizeProofs LoadedProofs
+From RopeVerif.C07 Require Import Imports Spec Renaming BasicsProofs SpecProofs SortProofs OrganizeProofs LoadedProofs
      ExpandProofs IdemProofs Idem2Proofs Layout LayoutProofs Witnesses WitnessProofs.
 Import ListNotations.
 
@@ -114,6 +114,13 @@ Example C07_froms_future_fixed :
   = Some ([From [t_future] 0%N [(n_x, None)]; Normal [([n_la], None)]], [[n_la; n_y]]).
 Proof. exact froms_future_fixed. Qed.
 Print Assumptions C07_froms_future_fixed.
+
+(* froms_to_imports renames by object identity (whole primaries): one object used through two routes *)
+Example C07_froms_two_routes :
+  option_map (fun r => (map s_info (fst r), snd r)) (froms_to_imports w_lay w_prefs routes_used [] routes_stmts)
+  = Some ([Normal [([n_la], None)]], [[n_la; n_x]; [n_la; n_x]; [n_la; n_y]]).
+Proof. exact froms_two_routes. Qed.
+Print Assumptions C07_froms_two_routes.
 
 (* ---- relatives_to_absolutes ------------------------------------------------------------------------
    for every layout that describes one project ([abs_coherent]: a module has the same rows under its
